@@ -634,8 +634,12 @@ class RecordContextMatcher:
         elif isinstance(node, ast.BinOp):
             left = self.eval(node.left)
             right = self.eval(node.right)
-            if isinstance(left, NoneObject) or isinstance(right, NoneObject):
-                return NONE_OBJECT
+            for operand in (left, right):
+                # a missing field, also inside a tuple or list operand ('%s-%s' % (r.missing, 1)), makes the result missing
+                if isinstance(operand, NoneObject) or (
+                    isinstance(operand, (tuple, list)) and any(isinstance(item, NoneObject) for item in operand)
+                ):
+                    return NONE_OBJECT
             return AST_OPERATORS[type(node.op)](left, right)
         elif isinstance(node, ast.UnaryOp):
             return AST_OPERATORS[type(node.op)](self.eval(node.operand))
